@@ -45,6 +45,7 @@ type FuncContract struct {
 	Safe       map[string]bool
 	Axiomatic  []int        // 1-based indices of ensures clauses exported as quantified axioms where the (pure) function is applied inside contract expressions
 	Spine      map[int]bool // freshspine rK: only the container of the K-th result must be newly allocated
+	FreshField map[int]string // fresh rK.Field: the claim is about that field of the K-th (struct) result only
 	Fresh      map[int]bool // result indices claimed to share no memory with inputs (ownership rule)
 	GhostVars  []SpecParam         // ghost variables: name, Go type
 	GhostCall  map[string][]Clause // callee text -> ghost assignments 'lhs = rhs' executed at each such call (after its callreq)
@@ -80,6 +81,7 @@ type PkgContracts struct {
 	TypeScope  string // function whose scope resolves spec types (for generic packages)
 	Invariants map[string][]Clause
 	NonNil     map[string]bool
+	FreshCalls map[string]bool // callee texts whose results are assumed fresh by the ownership rule (e.g. decoded beacon API responses)
 }
 
 var reFunc = regexp.MustCompile(`^func\s+(?:\(\s*(?:\w+\s+)?\*?([\w.]+)(?:\[[^\]]*\])?\s*\)\s*)?([\w./$]+)\s*$`)
@@ -185,6 +187,13 @@ func (pc *PkgContracts) parseFile(path string) error {
 			for _, p := range strings.FieldsFunc(rest, func(r rune) bool { return r == ',' || r == ' ' }) {
 				pc.Pure[p] = true
 			}
+		case "freshcalls":
+			if pc.FreshCalls == nil {
+				pc.FreshCalls = map[string]bool{}
+			}
+			for _, p := range strings.FieldsFunc(rest, func(r rune) bool { return r == ',' || r == ' ' }) {
+				pc.FreshCalls[p] = true
+			}
 		case "nonnil":
 			for _, p := range strings.FieldsFunc(rest, func(r rune) bool { return r == ',' || r == ' ' }) {
 				pc.NonNil[p] = true
@@ -269,6 +278,10 @@ func (pc *PkgContracts) parseFile(path string) error {
 			case "fresh", "freshspine":
 				for _, k := range strings.FieldsFunc(rest, func(r rune) bool { return r == ',' || r == ' ' }) {
 					idx := 0
+					field := ""
+					if i := strings.Index(k, "."); i > 0 {
+						k, field = k[:i], k[i+1:]
+					}
 					if k != "result" {
 						if _, err := fmt.Sscanf(k, "r%d", &idx); err != nil {
 							return fmt.Errorf("%s:%d: fresh wants result or rN, got %q", path, l.line, k)
@@ -285,6 +298,12 @@ func (pc *PkgContracts) parseFile(path string) error {
 						cur.Fresh = map[int]bool{}
 					}
 					cur.Fresh[idx] = true
+					if field != "" {
+						if cur.FreshField == nil {
+							cur.FreshField = map[int]string{}
+						}
+						cur.FreshField[idx] = field
+					}
 				}
 			case "atomic":
 				cur.Atomic = true
